@@ -155,8 +155,11 @@ class Mutation:
 
 
 class PTA:
-    def __init__(self, index: Index, max_passes: int = 40):
+    def __init__(self, index: Index, max_passes: int = 40, skip=frozenset()):
         self.ix = index
+        # functions whose bodies are left out (state-restoring routines: analysed by their own rules on the full
+        # relation, see report.Ctx.pta); calls to them bind arguments and return nothing
+        self.skip = frozenset(skip)
         self.pts: Dict[tuple, Set[Obj]] = {}
         self.changed = False
         self.mutations: List[Mutation] = []
@@ -425,6 +428,8 @@ class PTA:
             self.global_writes = []
             self._rebuild_field_index()
             for f in funcs:
+                if self.skip and self._fq(f) in self.skip:
+                    continue
                 self.analyse_unit(f)
             if os.environ.get('IVA_TRACE'):
                 print(f'[pta] pass {self.passes}: {len(self.pts)} vars, {len(self._objs)} objs', flush=True)
